@@ -22,6 +22,8 @@ def run(ck, F):
                   "unwrap/expect (panic) and ok()/let _/drop (false success) are violations")
     ck.rule("R2", "WriterError has a From<std::io::Error> conversion so `?` carries the sink error")
     ck.rule("R3", "no short-write primitive: Write::write / write_vectored are never called")
+    ck.rule("R4", "a buffering wrapper (BufWriter / LineWriter) around the sink is flushed with the result propagated on every path to a "
+                  "successful return (its Drop flushes too but swallows the error)")
     X = T.extractor(F)
     hits = [h for h in scans.scan_sink_results(F.lib, X.writer_fns) if in_scope(h[0])]
     n_sink = n_writer = 0
@@ -52,10 +54,29 @@ def run(ck, F):
         ck.violation("R3", f"{callee}", site, f"{callee} may write only part of the buffer; the remainder is silently lost", fn=fn)
     if not short:
         ck.ok("R3", "no-short-write", "-", "no Write::write / write_vectored call in zeep-lib")
+    # R4: buffering wrappers around the sink
+    in_lib = [h for h in scans.scan_buffered_sinks(F.lib) if in_scope(h[0])] + list(scans.scan_buffered_sinks(F.bin))   # library and CLI
+    for (fn, site, verdict, detail) in in_lib:
+        short_ = fn.rsplit("::", 1)[-1]
+        if verdict == "ok":
+            ck.ok("R4", f"buffered:{short_}", site, f"{fn}: buffering wrapper flushed, result passed on ({detail})", fn=fn)
+        else:
+            ck.violation("R4", f"buffered:{short_}:{verdict}", site,
+                         f"{fn} wraps the sink in a buffering writer that is dropped without a reported flush ({detail}): a failure of the "
+                         f"sink while the buffer is written out on drop is swallowed and the caller sees success", fn=fn)
+    if not in_lib:
+        ck.ok("R4", "no-buffering-wrapper", "-", "no BufWriter / LineWriter is built around a sink in zeep-lib or the CLI")
     ctl = factsmod.controls()
+    bh = {h[0]: h[2] for h in scans.scan_buffered_sinks(ctl)}
+    want_b = {"c15_buffered_unflushed": "unflushed", "c15_buffered_flushed": "ok", "c15_buffered_flush_returned": "ok", "c15_buffered_flush_ignored": "flush-result-lost"}
+    if bh == want_b:
+        ck.ok("R4", "positive-control", "engine/controls/src/lib.rs", "controls: unflushed and ignored-flush wrappers reported, flushed ones accepted")
+    else:
+        ck.undecided("R4", "positive-control", "engine/controls/src/lib.rs", f"the buffered-sink scanner reports {bh} on the controls, expected {want_b}")
     chits = scans.scan_sink_results(ctl)
     bad_ctl = {h[0] for h in chits if not (h[3] and h[3] <= scans.GOOD_FLOW)}
-    want = {"c15_dropped", "c15_unwrapped", "c15_ok_swallow", "c15_in_closure::{closure#0}", "c15_fold_discards::{closure#0}"}
+    want = {"c15_dropped", "c15_unwrapped", "c15_ok_swallow", "c15_in_closure::{closure#0}", "c15_fold_discards::{closure#0}",
+            "c15_buffered_flush_ignored"}
     good_ctl = {h[0] for h in chits if h[3] and h[3] <= scans.GOOD_FLOW}
     short_ctl = {h[0] for h in chits if h[2] in scans.SHORT_WRITE}
     if bad_ctl == want and {"c15_propagated", "c15_try_for_each_ok::{closure#0}"} <= good_ctl and short_ctl == {"c15_short_write"}:
